@@ -21,6 +21,7 @@ RULE = ("graphs: every labelled undirected graph on 2-5 vertices (thorough; samp
         "with >=2 features; distinct = (graph kind, n_vertices, n_edges, features per vertex, mode, bias, dtype, truncation)")
 ASSUMPTIONS = ["directed graphs carry no antiparallel edge pairs", "per-block covariances are well conditioned (n_samples >= 6 x block size)"]
 DECIDING_TAPS = ["GMRF.__init__", "mahalanobis_distance"]
+REPLAY_PATHS = ['menpo/model/test']      # suite replay (thorough tier): the repository's own tests under these monitors
 SHARDS = {"quick": 8, "thorough": 16}
 
 
@@ -55,6 +56,10 @@ class DistanceMonitor(taps.Monitor):
             ctx.fail("mahalanobis_distance_is_not_the_quadratic_form_of_the_precision", cls=cls, mech=mech)
         if (got < -tol).any():
             ctx.fail("negative_mahalanobis_distance", cls=cls, mech=mech)
+
+
+def replay_case_begin():
+    gmrfmon.clear()
 
 
 def setup(ctx):
